@@ -25,7 +25,7 @@ func init() {
 		}}},
 		Run: run,
 		Floors: func(t string) map[string]int64 {
-			m := map[string]int64{"partner.same_datum": 10000, "partner.wgs84_area_of_use": 2000, "partner.wgs84_small_towgs84": 1000, "partner.geographic_without_datum": 1000, "position.conic_near_pole": 300, "position.across_the_antimeridian_of_the_partner_frame": 200, "position.mercator_on_the_antimeridian": 50, "position.tm_hair_off_equator": 300, "closure_pair": 5000, "ell.sphere": 60, "units.non_metre": 1000, "pm.set": 500}
+			m := map[string]int64{"partner.same_datum": 10000, "partner.wgs84_area_of_use": 2000, "partner.wgs84_small_towgs84": 1000, "partner.geographic_without_datum": 1000, "position.conic_near_pole": 300, "position.across_the_antimeridian_of_the_partner_frame": 200, "position.mercator_on_the_antimeridian": 50, "position.conic_at_the_pole": 300, "position.tm_hair_off_equator": 300, "closure_pair": 5000, "ell.sphere": 60, "units.non_metre": 1000, "pm.set": 500}
 			for _, p := range []string{"longlat", "merc", "lcc", "aea", "eqdc", "tmerc", "utm", "krovak"} {
 				m["proj."+p] = 300
 			}
@@ -98,6 +98,9 @@ func run(c *core.Ctx, idx int) {
 		d = crsgen.Gen(r, &crsgen.Options{SmallTowgs: true, NoBothDatum: true})
 		if (d.Proj == "tmerc" || d.Proj == "utm") && d.DatKind != "named" && r.Chance(0.2) {
 			d.Ell, d.EllKind = " +ellps=sphere", "sphere" // the spherical forms have their own code
+		}
+		if (d.Proj == "aea" || d.Proj == "eqdc" || d.Proj == "lcc") && d.DatKind != "named" && r.Chance(0.15) {
+			d.Ell, d.EllKind = " +ellps=sphere", "sphere" // so have the conics
 		}
 		geo = d.Geographic().String()
 		partner = "same_datum"
@@ -190,6 +193,17 @@ func run(c *core.Ctx, idx int) {
 				}
 				c.Count("position.conic_near_pole")
 				nearPole = true
+			} else if (d.Proj == "lcc" || d.Proj == "eqdc" || (d.Proj == "aea" && d.EllKind == "sphere")) && r.Chance(0.15) {
+				// the cone-side pole itself (latitude judged; the longitude difference is weighted
+				// by cos(lat) = 0). The ellipsoidal equal-area conic is left out: its inverse
+				// iterates on the latitude with the original's stopping step of 1e-7 rad and is
+				// 1e-6..4e-6 deg off within a metre of the pole (noted in DESIGN, not repaired).
+				lat = 90
+				if d.LatMax <= 0 {
+					lat = -90
+				}
+				c.Count("position.conic_at_the_pole")
+				nearPole = true
 			}
 		}
 		onSeam := false
@@ -247,7 +261,14 @@ func run(c *core.Ctx, idx int) {
 			dl *= math.Cos(lat * math.Pi / 180)
 		}
 		c.Max("max_roundtrip_deg."+partner, math.Max(dl, dp))
-		if dl > 1e-6 || dp > 1e-6 {
+		latTol := 1e-6
+		if d.Proj == "aea" && math.Abs(lat) == 90 {
+			// the equal-area conic at the pole: the latitude comes from asin of a value that is 1
+			// up to rounding, so 1e-15 in the argument is 4e-6 deg (the conditioning of the
+			// problem); the result must be finite, error-free and within 1e-5 deg
+			latTol = 1e-5
+		}
+		if dl > 1e-6 || !(dp <= latTol) {
 			c.Violate("roundtrip-deg:"+key, fmt.Sprintf("%s: inverse(forward(p)) is off by (%.3g, %.3g) deg (p=(%v, %v), back=(%v, %v))", d.Proj, dl, dp, lg, lat, b.x, b.y), detail)
 			continue
 		}
